@@ -10,6 +10,8 @@ def edge_pool():
     out = []
     for neg, m, s in [(0,0,0),(0,1,0),(1,1,0),(0,MAXM,0),(1,MAXM,0),(0,MAXM-1,0),(0,MAXM,28),(0,1,28),(0,10**27,27),(0,11,1),
                       (0,2**63-1,0),(1,2**63,0),(0,2**63,0),(1,2**63+1,0),(0,63,0),(0,64,0),(0,65,0),(0,2**32,0),(1,64,0),
+                      # non-integral with a long run of trailing zeros (2.5000000000, 0.1000000000, 1.5 at scale 19, 1.25 at scale 28)
+                      (0,25*10**9,10),(0,10**9,10),(1,25*10**9,10),(0,15*10**18,19),(0,125*10**26,28),
                       (0,15,1),(0,630,1),(0,5,28),(0,2,0),(0,10,0),(0,MAXM//2+1,0),(0,3,0)]:
         out.append(mk_num(neg, m, s))
     out += ["N", "b(1)", "s(%s)" % hx("1"), "l()", "l(%s)" % mk_num(0, 1, 0), "m()"]
